@@ -236,6 +236,8 @@ def is_final_status(svc, status):
 class ScriptedError(Exception):
     pass
 
+_ScriptedErrorClass = ScriptedError
+
 
 # ----------------------------------------------------------------------------------------------- data sets
 
@@ -448,6 +450,12 @@ def make_handler(case, log, dest_port):
         return 0x0000 if status_only else (0x0000, None)
 
     kind = h["kind"]
+    # what a scripted "raise" raises: an ordinary Exception, or one of the BaseException-only classes a handler can end with
+    # (sys.exit() in a handler, Ctrl-C delivered to it)
+    exc_cls = {"SystemExit": SystemExit, "KeyboardInterrupt": KeyboardInterrupt}.get(case.get("exc_class"))
+
+    def ScriptedError(msg):        # noqa: N802 - shadows the module-level class on purpose
+        return exc_cls(msg) if exc_cls is not None else _ScriptedErrorClass(msg)
     if kind == "gen":
         def gen_handler(event):
             if not first():
@@ -1165,7 +1173,25 @@ PINNED_RETRIEVE = [
 ]
 
 
+def _has_scripted_raise(h):
+    return h.get("kind") == "raise" or (h.get("kind") == "gen" and (h.get("end") == "raise" or any("raise" in st for st in h.get("steps", []))))
+
+
+def _assign_exception_classes(cases, seed, pid, tier):
+    """A third of the handlers that raise do so with a BaseException-only class (what sys.exit() / Ctrl-C in a handler give)."""
+    from .common import rng_for
+    rng = rng_for(seed, pid, "exc-class", tier)
+    for c in cases:
+        if _has_scripted_raise(c["h"]) and rng.random() < 0.34:
+            c["exc_class"] = rng.choice(["SystemExit", "KeyboardInterrupt"])
+    return cases
+
+
 def gen_cases(tier, seed, pid, focus=None):
+    return _assign_exception_classes(_gen_cases(tier, seed, pid, focus), seed, pid, tier)
+
+
+def _gen_cases(tier, seed, pid, focus=None):
     """Shared design.  focus None: all services (weighted towards the generator services); 'retrieve': C-GET/C-MOVE."""
     from .common import rng_for
     import copy
